@@ -744,7 +744,8 @@ class HavocLoop(object):
         self._havoc(frame, ctx)
         st = ctx.stmt
         names = assigned_names(st.body) | (assigned_names([st.target]) if hasattr(st, 'target') else set())
-        keep = {p.split('.')[0] for p in self.variables}
+        mapping = remap_contract_names(frame, ctx, self.variables)
+        keep = {_apply_map(p, mapping).split('.')[0] for p in self.variables}
         for nme in names - keep:
             frame.env[nme] = Poison(nme)
 
